@@ -10,6 +10,15 @@ from mc import domain_w as dw
 from mc.oracles import lfp_terms
 
 
+def domain_fns(c):
+    """(plain enumeration of terms, exact emptiness) for the domain of class c."""
+    from mc import domain_g as dg
+
+    if isinstance(c, dg.G):
+        return dg.brute_terms, dg.brute_empty
+    return dw.brute_terms, dw.brute_empty
+
+
 def spec_signature(spec) -> str:
     """A complete description of the specification (what from_dict rebuilds it from)."""
     d = spec.to_jsonable()
@@ -28,7 +37,7 @@ def count_problems(spec, start: dw.W, N: int) -> List[str]:
         probs.append(f"root of the specification is {spec.root!r}, start class {start!r}")
         return probs
     for n in range(N + 1):
-        want = nz(dw.brute_terms(start, n))
+        want = nz(domain_fns(start)[0](start, n))
         got = nz(spec.get_terms(n))
         if got != want:
             probs.append(f"size {n}: terms {got} but true enumeration {want}")
@@ -47,6 +56,10 @@ def count_problems(spec, start: dw.W, N: int) -> List[str]:
 
 # ---------------------------------------------------------------------------
 # C02
+
+
+def _empty(c) -> bool:
+    return domain_fns(c)[1](c)
 
 
 def unwrap(rule) -> List[Tuple[Any, List[str]]]:
@@ -80,7 +93,7 @@ def unwrap(rule) -> List[Tuple[Any, List[str]]]:
                 rec(x)
         elif isinstance(r, EquivalenceRule):
             o = r.original_rule
-            ne = [c for c in o.children if not dw.brute_empty(c)]
+            ne = [c for c in o.children if not _empty(c)]
             if o.comb_class != r.comb_class and not isinstance(o, ReverseRule):
                 probs.append("equivalence rule of a rule of another class")
             if len(ne) != 1 or tuple(r.children) != (ne[0],):
@@ -136,7 +149,7 @@ def structure_problems(spec, start: dw.W, pack, raw_rules: Optional[Sequence[Any
         for ch in rule.children:
             if ch in rd:
                 continue
-            if dw.brute_empty(ch):
+            if _empty(ch):
                 continue
             probs.append(f"non-empty class {ch!r} on a right-hand side has no rule")
     reach: Set[dw.W] = set()
@@ -166,7 +179,7 @@ def structure_problems(spec, start: dw.W, pack, raw_rules: Optional[Sequence[Any
             strat = base.strategy
             bc = base.comb_class
             if isinstance(strat, EmptyStrategy):
-                if not dw.brute_empty(bc):
+                if not _empty(bc):
                     probs.append(f"EmptyStrategy rule for the non-empty class {bc!r}")
                 continue
             allowed = allowed_strategies(pack, (bc,) + tuple(base.children))
@@ -198,7 +211,7 @@ def structure_problems(spec, start: dw.W, pack, raw_rules: Optional[Sequence[Any
             continue
         keys.append((lab(c), tuple(lab(ch) for ch in rule.children), sh))
     for c in list(label):
-        if c not in rd and dw.brute_empty(c):
+        if c not in rd and _empty(c):
             keys.append((lab(c), (), ()))
     f = lfp_terms(keys)
     for c, l in label.items():
